@@ -559,10 +559,15 @@ H_ApiRet(s, r, l) ==
   ELSE IF r.op \in {"detach", "close_link"} THEN
        LET k == LastIdx(s.ls, LAMBDA y : y.name = r.lname /\ y.eAtt) IN
        IF k = 0 THEN R(s, 0) ELSE
-       LET y == s.ls[k] IN
-       R(SetL(s, k, [y EXCEPT !.errTold = TRUE]),
+       LET y == s.ls[k]
+           told == [j \in DOMAIN s.ls |-> IF s.ls[j].name = r.lname /\ s.ls[j].eAtt /\ j <= k THEN [s.ls[j] EXCEPT !.errTold = TRUE] ELSE s.ls[j]] IN
+       R([s EXCEPT !.ls = told],
            Chk("C13_TeardownWaits", ~r.res.ok \/ y.pDet \/ ~ConnUp(s), l, r.op)
          + Chk("C13_PeerError", ~(y.pDet /\ y.pDetErr # "" /\ ~y.errTold) \/ (~r.res.ok /\ r.res.cond = y.pDetErr) \/ (s.appTeardown /\ ~r.res.ok /\ r.res.says_sess), l, r.op)
+           \* (the error may sit on an earlier attachment of that name: the peer met a non-closing detach with a closing one that carried it,
+           \*  and the endpoint attached once more only to close in kind)
+         + Chk("C13_PeerError", LET e == LastIdx(s.ls, LAMBDA z : z.name = r.lname /\ z.eAtt /\ z.pDet /\ z.pClosed /\ z.eDet /\ ~z.eClosed /\ ~z.pDetFirst /\ z.pDetErr # "" /\ ~z.errTold) IN
+                                  (e = 0) \/ (e = k) \/ (~r.res.ok /\ r.res.cond = s.ls[e].pDetErr) \/ ~ConnUp(s), l, "closing-answer")
          \* an orderly exchange (the peer answered in kind, without an error, on a live session) is reported as success, whatever was still queued on the link
          \* (and an error is not reported before the peer has answered while nothing else has failed)
          + Chk("C13_DetachResult", r.res.ok \/ ~(ConnUp(s) /\ (y.pDet => (~y.pDetFirst /\ y.pDetErr = "" /\ (r.op = "close_link") = y.pClosed)) /\ y.eDet /\ ~y.broken /\ y.cancels = 0 /\ ~s.hook /\ ~s.illegal
